@@ -751,8 +751,8 @@ func emitDriverTable(sb *strings.Builder, marshal []string, encOf, decOf [][2]st
 	}
 	sb.WriteString("/-! ## Driver entry: Serializer.Marshal then Serializer.Unmarshal into a fresh value -/\n\n")
 	sb.WriteString("def showOutcome {α : Type} (f : α → Tree) : Outcome α → String\n  | .ok v => (f v).show\n  | .error (.panic _) => \"panic:decode\"\n  | .error (.error _) => \"err:decode\"\n\n")
-	sb.WriteString("/-- (model output, spec output) for message type `name` and the value described by `t`. -/\n")
-	sb.WriteString("def roundTrip (name : String) (t : Tree) : Option (String × String) :=\n")
+	sb.WriteString("/-- (model output, spec output, what the theorems say the codec returns) for message type `name` and\nthe value described by `t`. -/\n")
+	sb.WriteString("def roundTrip (name : String) (t : Tree) : Option (String × String × String) :=\n")
 	for _, p := range encOf {
 		t, enc := p[0], p[1]
 		d, ok := dec[t]
@@ -785,7 +785,7 @@ func emitDriverTable(sb *strings.Builder, marshal []string, encOf, decOf [][2]st
 			}
 			model = fmt.Sprintf("(%s %s {})", d, arg)
 		}
-		fmt.Fprintf(sb, "  if name = %q then\n    (ofTree_P_%s t).map (fun v =>\n      (showOutcome toTree_P_%s %s, (toTree_P_%s (canon_%s false v)).show))\n  else ", t, t, t, model, t, t)
+		fmt.Fprintf(sb, "  if name = %q then\n    (ofTree_P_%s t).map (fun v =>\n      (showOutcome toTree_P_%s %s, (toTree_P_%s (canon_%s false v)).show, (toTree_P_%s (canon_%s true v)).show))\n  else ", t, t, t, model, t, t, t, t)
 	}
 	sb.WriteString("none\n\n")
 	sb.WriteString("/-- Model output for Unmarshal of the wire form of the internal value described by `t`. -/\n")
